@@ -93,8 +93,9 @@ impl TraceSlider {
     }
 
     pub(crate) fn set_subtrace_len(&mut self, subtrace_len: TraceLen) -> KeeperResult<()> {
-        let trace_remainder: TraceLen = (TracePos::from(self.trace_len()) - self.position).into();
-        if trace_remainder < subtrace_len {
+        // an empty subtrace could have been placed beyond the trace end, then nothing remains
+        let trace_remainder = (self.trace_len() as usize).saturating_sub(self.position.into());
+        if trace_remainder < subtrace_len as usize {
             return Err(SetSubtraceLenFailed {
                 requested_subtrace_len: subtrace_len,
                 trace_position: self.position,
